@@ -197,7 +197,12 @@ def digs(rng, base, lo=1, hi=6):
 FOLLOW_KINDS = ['eof', 'letter', 'digit', 'space', 'relax', 'bg', 'eg', 'punct', 'reg', 'hexlow']
 
 
+# characters that look blank but are ordinary characters (category 12) for TeX: NBSP, em space, ideographic space, narrow NBSP, ogham space
+UBLANKS = [160, 8195, 12288, 8239, 5760]
+
+
 def follow_head(rng, kind):
+    if kind == 'ublank': return ['c%d' % rng.choice(UBLANKS)]
     if kind == 'letter': return [w_ch(rng.choice('aRxzQkg'))]
     if kind == 'digit': return [w_ch(rng.choice('0123456789'))]
     if kind == 'space': return ['s']
@@ -227,8 +232,8 @@ def gen_int_lit(rng):
     sp = rng.random() < 0.4
     if kind == 'd':
         v = digs(rng, 10, 1, 7)
-        allowed = ['eof', 'letter', 'digit', 'space', 'relax', 'bg', 'eg', 'punct', 'hexlow'] if sp else \
-                  ['eof', 'letter', 'relax', 'bg', 'eg', 'punct', 'hexlow']
+        allowed = ['eof', 'letter', 'digit', 'space', 'relax', 'bg', 'eg', 'punct', 'hexlow', 'ublank'] if sp else \
+                  ['eof', 'letter', 'relax', 'bg', 'eg', 'punct', 'hexlow', 'ublank']
     elif kind == 'o':
         v = digs(rng, 8, 1, 6)
         allowed = ['eof', 'letter', 'digit', 'relax', 'bg', 'eg', 'punct', 'reg', 'hexlow'] if sp else ['eof', 'letter', 'relax', 'bg', 'eg', 'punct', 'hexlow']
@@ -271,9 +276,9 @@ def gen_dec_body(rng, maxip=5):
 def gen_dec_lit(rng):
     body, form = gen_dec_body(rng)
     if form == 'int':
-        allowed = ['eof', 'letter', 'space', 'relax', 'bg', 'eg', 'hexlow']
+        allowed = ['eof', 'letter', 'space', 'relax', 'bg', 'eg', 'hexlow', 'ublank']
     else:
-        allowed = ['eof', 'letter', 'relax', 'bg', 'eg', 'punct0', 'hexlow']
+        allowed = ['eof', 'letter', 'relax', 'bg', 'eg', 'punct0', 'hexlow', 'ublank']
     k = rng.choice(allowed)
     fol = [w_ch(rng.choice(';:!?/()'))] if k == 'punct0' else follow(rng, [k])
     return ['D'] + gen_signs(rng) + body, fol
@@ -316,9 +321,9 @@ def gen_dim_lit(rng, fil_ok=False, signs=True):
 def dim_follow(rng, kind, glue=False):
     """followers that cannot continue a dimension / glue"""
     if kind == 'reg':
-        allowed = ['eof', 'letterx', 'digit', 'relax', 'bg', 'eg', 'punct']
+        allowed = ['eof', 'letterx', 'digit', 'relax', 'bg', 'eg', 'punct', 'ublank']
     else:
-        allowed = ['eof', 'letterx', 'digit', 'relax', 'bg', 'eg', 'punct']
+        allowed = ['eof', 'letterx', 'digit', 'relax', 'bg', 'eg', 'punct', 'ublank', 'ublank']
     k = rng.choice(allowed)
     if glue and rng.random() < 0.2:
         # text that starts like a keyword but does not spell it: the matcher must push all of it back
@@ -328,6 +333,9 @@ def dim_follow(rng, kind, glue=False):
         # where the keyword would still be read (conformance is decided by the driver) only the model is compared
         return w_text(rng.choice(['plus two', 'plus', 'plus.', 'PLUS 2pt', 'Plus1fil x', 'minus one', 'minus', 'MINUS 3pt', 'plus minus',
                                   'minus plus', 'plus 2pt minus 1pt']))
+    if k == 'ublank':
+        # a Unicode blank ends the literal; what stands behind it (even a keyword or a unit) is text
+        return follow_head(rng, 'ublank') + w_text(rng.choice(['', 'x', 'plus 2pt', 'minus 1fil', 'pt', 'l', '12']))
     if k == 'letterx':
         return [w_ch(rng.choice('aRxzQkg'))] + follow(rng, ['eof', 'letter', 'digit'])[:1]
     return follow(rng, [k])
@@ -369,7 +377,7 @@ SOUP = ['c43', 'c45', 's', 'c48', 'c49', 'c55', 'c57', 'c39', 'c34', 'c96', 'c46
 # ---------------------------------------------------------------- calls
 
 PAIRS = {'[': (91, 93), '(': (40, 41), '<': (60, 62), '{': (123, 125)}
-TEXTCH = 'abcxyzABC0123.:;!?/+@'
+TEXTCH = 'abcxyzABC0123.:;!?/+@' + chr(160) + chr(233) + chr(8195)
 
 
 def gen_content(rng, depth, avoid, inner=False):
@@ -405,7 +413,8 @@ def gen_pair_content(rng, b, e, depth):
 
 CTRL_SYMS = '[]()<>{}*=,;'
 # what follows the call starts with a control sequence whose name is blank (`\\ `, `\\<tab>`): a token, not skippable white space
-BLANK_CS_RESTS = [['x32', 'c82'], ['x32'], ['x9', 'c120'], ['x32', 'c91', 'c110', 'c93'], ['x32', '{', 'c120', '}']]
+BLANK_CS_RESTS = [['x32', 'c82'], ['x32'], ['x9', 'c120'], ['x32', 'c91', 'c110', 'c93'], ['x32', '{', 'c120', '}'],
+                  ['c160', 'c82'], ['c12288', 'c91', 'c111', 'c93', '{', 'c97', '}'], ['c8195', '{', 'c98', '}'], ['c160', 'c42', '{', 'c97', '}']]
 
 
 def sprinkle_cs(rng, cont, extra=''):
@@ -450,7 +459,7 @@ def gen_call_case(rng):
             words += ['%d.%d' % (b, e), str(pre if present else 0), 'P' if present else 'A', str(len(cont))] + cont
         else:
             if rng.random() < 0.2:
-                cont = [w_ch(rng.choice('abcXYZ059.;'))]
+                cont = [w_ch(rng.choice('abcXYZ059.;' + ''.join(chr(c) for c in UBLANKS)))]
             elif nox and rng.random() < 0.15:
                 # one control sequence written bare in the argument position: a control space `\\ `, `\\<tab>`, a control symbol, `\\relax`
                 cont = ['x' + rng.choice(['32', '32', '9', str(ord(rng.choice(CTRL_SYMS))), dots('relax')])]
@@ -640,7 +649,7 @@ def gen_arg_case(rng, malformed=False):
                 call += pre + ['{'] + v + ['}']
                 if ex:
                     expects[len(sig) - 1] = ex[0]
-    rest = rng.choice([[], ['c82'], ['c82', 'c69'], ['{', 'c120', '}'], ['x' + dots('relax'), 'c82'], ['c46'], ['s', 'c82']] + BLANK_CS_RESTS[:3])
+    rest = rng.choice([[], ['c82'], ['c82', 'c69'], ['{', 'c120', '}'], ['x' + dots('relax'), 'c82'], ['c46'], ['s', 'c82']] + BLANK_CS_RESTS[:3] + BLANK_CS_RESTS[5:])
     if used_last:
         rest = rng.choice([[], ['c82'], ['x' + dots('relax'), 'c82'], ['c46']])
         if sig[-1].split(':')[-1] in ('Glue', 'Skip') and rng.random() < 0.3:
@@ -826,6 +835,10 @@ def corpus():
         Case('call', '2 t 0 P 3 c97 x125 c98 40.41 0 P 2 x40 c49 | c82', {'nox': True}, 'corpus'),
         # a control space is a token: \\foo\\ {x}y (the argument), \\foo{x}\\ next with a trailing absent optional
         Case('call', '1 t 0 P 1 x32 | { c120 } c121', {'nox': True}, 'corpus'),
+        # characters that merely look blank are ordinary characters: \\foo{a}<NBSP>{b}, \\foo<U+3000>[o]{a}
+        Case('call', '2 t 0 P 1 c97 t 0 P 1 c160 | { c98 }', {}, 'corpus'),
+        Case('call', '2 91.93 0 A 0 t 0 P 1 c12288 | c91 c111 c93 { c97 }', {}, 'corpus'),
+        Case('num', 'glue c49 c112 c116 c160 c112 c108 c117 c115 s c50 c112 c116', {}, 'corpus'),
         Case('call', '2 t 0 P 1 c120 91.93 0 A 0 | x32 c110', {}, 'corpus'),
         Case('call', '2 91.93 0 A 0 t 0 P 1 x32 | c91 c112 c93', {'nox': True}, 'corpus'),
     ]
@@ -1062,6 +1075,15 @@ def extra_checks(ctx):
             viol.append(Violation('the text that follows the invocation is read differently from the same text after a macro without arguments',
                                   {'kind': 'failing-input', 'extra': spec, 'observed': obs,
                                    'expected': 'with_arguments == without_arguments'}))
+    nest_bad = []
+    for spec in [gen_nest_spec(rng) for _ in range(200 if ctx.tier == 'quick' else 3000)]:
+        n += 1
+        bad, got, want = nest_fails(spec)
+        if bad:
+            nest_bad.append((len(spec['text']), spec['text'], spec, got, want))
+    for _, _, spec, got, want in sorted(nest_bad, key=lambda x: x[:2])[:5]:        # the shortest documents first
+        viol.append(Violation('a (nested) invocation does not record / bind exactly the text written for it',
+                              {'kind': 'failing-input', 'extra': spec, 'observed': got, 'expected': want}))
     fixed_m = [{'sig': 'a', 'call': "{f'}", 'vals': {'a': "f'"}, 'math': True, 'wrap': '\\mbox{$%s$}'},
                {'sig': '[ o ] a', 'call': "[x--y]{g''}", 'vals': {'o': 'x--y', 'a': "g''"}, 'math': True, 'wrap': '\\hbox{$%s$}'},
                {'sig': 'a', 'call': "{a'--}", 'vals': {'a': "a'--"}, 'math': False, 'wrap': '$\\mbox{%s}$'}]
@@ -1137,7 +1159,98 @@ def gen_mode_spec(rng):
     return {'sig': ' '.join(sig), 'call': call, 'vals': vals, 'math': math, 'wrap': rng.choice(MATH_WRAPS if math else TEXT_WRAPS)}
 
 
+# ---- document level: invocations nested in arguments (also of the same macro): every invocation records exactly its own text
+
+NEST_SIGS = ['[ o ] x', '* x', 'x y', '* [ o ] ( p ) x', 'x', 'x [ o ]', '( p ) x y', '< q > x']
+
+
+def nest_items(sig):
+    """[(name, opener, closer, optional)] of a signature of the simple shapes above"""
+    out, ws, i = [], sig.split(), 0
+    while i < len(ws):
+        w = ws[i]
+        if w == '*': out.append(('*modifier*', '*', '', True)); i += 1
+        elif w in '[(<': out.append((ws[i + 1], w, {'[': ']', '(': ')', '<': '>'}[w], True)); i += 3
+        else: out.append((w, '{', '}', False)); i += 1
+    return out
+
+
+def gen_nest_call(rng, sigs, name, depth, acc):
+    """text of one invocation of `name`; appends (name, written argSource, {argument: written content or None}) to acc in pre-order"""
+    entry = [name, None, {}]
+    acc.append(entry)
+    pieces, pending = [], set()
+    for arg, op, cl, optional in nest_items(sigs[name]):
+        if optional and (op in pending or rng.random() < 0.45):
+            pending.add(op)
+            entry[2][arg] = None
+            continue
+        pending = set()
+        if op == '*':
+            pieces.append('*'); entry[2][arg] = '*'
+            continue
+        body = ''
+        for _ in range(rng.choice([1, 1, 2])):
+            if depth > 0 and rng.random() < 0.55:
+                body += gen_nest_call(rng, sigs, rng.choice(sorted(sigs)), depth - 1, acc)
+            else:
+                body += rng.choice(['a', 'b1', 'uv', 's', '7'])
+        pieces.append(op + body + cl)
+        entry[2][arg] = body
+    entry[1] = ''.join(pieces)
+    return '\\' + name + entry[1]
+
+
+def gen_nest_spec(rng):
+    sigs = {'foo': rng.choice(NEST_SIGS), 'bar': rng.choice(NEST_SIGS)}
+    acc = []
+    text = gen_nest_call(rng, sigs, 'foo', rng.choice([1, 2, 2, 3]), acc)
+    return {'sigs': sigs, 'text': text + '|rest', 'want': [[n, a, b] for n, a, b in acc]}
+
+
+def nest_observe(spec):
+    import plasTeX
+    from plasTeX.TeX import TeX
+    from plasTeX import ParameterCommand
+    ParameterCommand._enablelevel = 0
+    ParameterCommand.enabled = True
+    tex = TeX()
+    for name, sig in sorted(spec['sigs'].items()):
+        tex.ownerDocument.context.addGlobal(name, type(name, (plasTeX.Command,), {'args': sig}))
+    tex.input(spec['text'])
+    got = []
+
+    def src(v):
+        return None if v is None else str(getattr(v, 'source', v))
+
+    def walk(container):
+        for child in list(getattr(container, 'childNodes', [])):
+            if getattr(child, 'nodeName', None) in spec['sigs'] and hasattr(child, 'arguments'):
+                got.append([child.nodeName, child.argSource, {a.name: src(child.attributes.get(a.name)) for a in child.arguments}])
+                for a in child.arguments:
+                    v = child.attributes.get(a.name)
+                    if hasattr(v, 'childNodes'):
+                        walk(v)
+            else:
+                walk(child)
+    try:
+        out = tex.parse()
+        walk(out)
+        tail = str(out.textContent)[-5:]
+        return {'nodes': got, 'tail': tail}
+    except Exception as e:
+        return canon_exc(e)
+
+
+def nest_fails(spec):
+    got = nest_observe(spec)
+    want = {'nodes': [[n, a, dict(b)] for n, a, b in spec['want']], 'tail': '|rest'}
+    return got != want, got, want
+
+
 def replay_extra(ctx, extra):
+    if 'sigs' in extra:
+        return nest_fails(extra)[0]
     if 'wrap' in extra:
         return mode_fails(extra)[0]
     if 'args' in extra:
